@@ -5,6 +5,7 @@ import (
 	"regexp"
 	"strings"
 	"unicode"
+	"unicode/utf8"
 
 	"github.com/Vedant9500/WTF/internal/constants"
 	"github.com/Vedant9500/WTF/internal/errors"
@@ -23,12 +24,18 @@ func ValidateQuery(query string) (string, error) {
 	}
 
 	// Basic sanitization - remove control characters but keep printable chars
-	cleaned := strings.Map(func(r rune) rune {
-		if unicode.IsControl(r) && r != '\n' && r != '\t' {
-			return -1 // Remove control characters except newlines and tabs
+	// (copy the original bytes of every kept character: re-encoding would turn
+	// each invalid UTF-8 byte into a 3-byte U+FFFD and grow the query past the
+	// length limit that was just checked)
+	var kept strings.Builder
+	for i := 0; i < len(query); {
+		r, size := utf8.DecodeRuneInString(query[i:])
+		if !(unicode.IsControl(r) && r != '\n' && r != '\t') {
+			kept.WriteString(query[i : i+size]) // Remove control characters except newlines and tabs
 		}
-		return r
-	}, query)
+		i += size
+	}
+	cleaned := kept.String()
 
 	// Check for potentially dangerous characters after sanitization
 	dangerousChars := regexp.MustCompile(`[<>|&;$]`)
